@@ -148,13 +148,43 @@ pub fn run(_tier: &str) -> Report {
             }
         }
     }
+    // AuthData::auth_type(): the AuthType of a value is the one its `type` string gives
+    for a in ["m.login.sso", "m.login.token", "m.login.oauth2", "m.login.dummy", "m.login.terms", "org.example.auth", "m.login.ss", ""] {
+        n += 1;
+        let r = std::panic::catch_unwind(|| -> Vec<String> {
+            use ruma_client_api::uiaa::{AuthData, AuthType};
+            let mut bad = vec![];
+            if let Ok(d) = AuthData::new(a, Some("sess".to_owned()), Default::default()) {
+                match d.auth_type() {
+                    Some(t) => {
+                        if t.as_ref() != a {
+                            bad.push(format!("AuthData::new({a:?}, ..).auth_type() has the string form {:?}", t.as_ref()));
+                        }
+                        if t != AuthType::from(a) {
+                            bad.push(format!("AuthData::new({a:?}, ..).auth_type() is not equal to AuthType::from({a:?}) although both have the string form {a:?}"));
+                        }
+                    }
+                    None => bad.push(format!("AuthData::new({a:?}, ..).auth_type() is None")),
+                }
+            }
+            bad
+        });
+        match r {
+            Err(_) => fail(&mut f_panic, json!({"enum": "AuthType", "input": a, "observed": "panic"})),
+            Ok(bad) => {
+                for why in bad {
+                    fail(&mut f_str, json!({"enum": "AuthType", "input": a, "why": why}));
+                }
+            }
+        }
+    }
     // the integer form of the legacy VoIP version
     n += 1;
     if serde_json::to_value(VoipVersionId::V0).ok() != Some(json!(0)) || serde_json::from_value::<VoipVersionId>(json!(0)).ok() != Some(VoipVersionId::V0) || VoipVersionId::V0.as_str() != "0" {
         fail(&mut f_json, json!({"enum": "VoipVersionId", "why": "V0 is not the JSON integer 0"}));
     }
     Report {
-        bound: "4 hand-written string enums (VoipVersionId, UriAction, TagName, JoinRule in its JSON object form) and the conversions of the event type enums into TimelineEventType x specified spellings, each without its last character and with an extra character, 13 generic strings; all pairs for equality".to_owned(),
+        bound: "4 hand-written string enums (VoipVersionId, UriAction, TagName, JoinRule in its JSON object form) the conversions of the event type enums into TimelineEventType and AuthData::auth_type() x specified spellings, each without its last character and with an extra character, 13 generic strings; all pairs for equality".to_owned(),
         cases: n,
         obligations: vec![
             ("hand_written_conversions_keep_every_string_and_equality_follows_the_string", n, f_str),
